@@ -902,7 +902,7 @@ class Interp:
     def getattr(self, o, attr, node=None):
         if isinstance(o, ModuleVal):
             full = f"{o.name}.{attr}"
-            if full in self.w.mods:
+            if full in self.w.mods or any(k.startswith(full + ".") for k in self.w.mods):
                 return ModuleVal(full)
             if o.name in self.w.mods:
                 try:
@@ -1337,7 +1337,7 @@ def _hasattr(I, args, kwargs, node):
             return True
         if I.w.class_attr(o.cls.name, a) is not None:
             return True
-        if o.origin == "abstract":
+        if o.origin == "abstract" and not o.attrs.get("__closed__"):
             raise Undecided(f"hasattr({o!r}, {a!r}) on an abstract operand")
         return False
     raise Undecided(f"hasattr on {o!r}")
